@@ -84,7 +84,9 @@ def leb_summaries():
         if src is not None and ctx.ghost.get("assume_canonical_leb") and src[3] == bool(cls.signed):
             # C02's premise: the bytes this value was read from were its canonical encoding, i.e. enc(x)
             seg, pos, n, _ = src
-            stream.write(SBytes([seg.window(pos, n)]))
+            w = seg.window(pos, n)
+            w.tag = ("leb", x, bool(cls.signed))  # these bytes are enc(x) (premise), a re-read returns x
+            stream.write(SBytes([w]))
             return n
         enc = (scalars.enc_s if cls.signed else scalars.enc_u)(x)
         n = _z3.Length(enc)
